@@ -4,6 +4,9 @@
 mod core_ops;
 mod dval;
 mod gen;
+mod generated;
+mod ops_maxsize;
+mod samples;
 mod guard;
 mod ops_c04;
 mod ops_acc;
@@ -44,6 +47,9 @@ fn eval_line(ctx: &mut Ctx, line: &str) -> String {
     if let Some(a) = ops_codec::eval(ctx, &op, args) {
         return a;
     }
+    if let Some(a) = ops_maxsize::eval(ctx, &op, args) {
+        return a;
+    }
     if let Some(a) = ops_c04::eval(ctx, &op, args) {
         return a;
     }
@@ -78,6 +84,8 @@ fn main() {
                 "C16" => ops_schema::gen_c16(&mut r, thorough, &mut out),
                 "C15" => ops_schema::gen_c15(&mut r, thorough, &mut out),
                 "C19" => ops_schema::gen_c19(&mut r, thorough, &mut out),
+                "C12" => ops_maxsize::gen_c12(&mut r, thorough, &mut out),
+                "C13" => ops_maxsize::gen_c13(&mut r, thorough, &mut out),
                 "C04" => ops_c04::gen_c04(&mut r, thorough, &mut out),
                 "C08" => ops_acc::gen_acc(&mut r, thorough, false, &mut out),
                 "C09" => ops_acc::gen_acc(&mut r, thorough, true, &mut out),
